@@ -38,7 +38,7 @@ func (db *DB) AgentAdd(agent *agent.Agent) error {
 	}
 
 	/* prepare some arguments to execute for the sqlite db */
-	stmt, err := db.db.Prepare("INSERT INTO TS_Agents ( AgentID, Active, Reason, AESKey, AESIv, Hostname, Username, DomainName, ExternalIP, InternalIP, ProcessName, BaseAddress, ProcessPID, ProcessTID, ProcessPPID, ProcessArch, Elevated, OSVersion, OSArch, SleepDelay, SleepJitter, KillDate, WorkingHours, FirstCallIn, LastCallIn) values(?,?,?,?,?,?,?,?,?,?,?,?,?,?,?,?,?,?,?,?,?,?,?,?,?)")
+	stmt, err := db.db.Prepare("INSERT INTO TS_Agents ( AgentID, Active, Reason, AESKey, AESIv, Hostname, Username, DomainName, ExternalIP, InternalIP, ProcessName, BaseAddress, ProcessPID, ProcessTID, ProcessPPID, ProcessArch, Elevated, OSVersion, OSArch, SleepDelay, SleepJitter, KillDate, WorkingHours, FirstCallIn, LastCallIn, ProcessPath) values(?,?,?,?,?,?,?,?,?,?,?,?,?,?,?,?,?,?,?,?,?,?,?,?,?,?)")
 	if err != nil {
 		return err
 	}
@@ -69,7 +69,8 @@ func (db *DB) AgentAdd(agent *agent.Agent) error {
 		agent.Info.KillDate,
 		agent.Info.WorkingHours,
 		agent.Info.FirstCallIn,
-		agent.Info.LastCallIn)
+		agent.Info.LastCallIn,
+		agent.Info.ProcessPath)
 	if err != nil {
 		return err
 	}
@@ -96,7 +97,7 @@ func (db *DB) AgentUpdate(agent *agent.Agent) error {
 	}
 
 	/* prepare some arguments to execute for the sqlite db */
-	stmt, err := db.db.Prepare("UPDATE TS_Agents SET Active = ?, Reason = ?, AESKey = ?, AESIv = ?, Hostname = ?, Username = ?, DomainName = ?, ExternalIP = ?, InternalIP = ?, ProcessName = ?, BaseAddress = ?, ProcessPID = ?, ProcessTID = ?, ProcessPPID = ?, ProcessArch = ?, Elevated = ?, OSVersion = ?, OSArch = ?, SleepDelay = ?, SleepJitter = ?, KillDate = ?, WorkingHours = ?, FirstCallIn = ?, LastCallIn = ? WHERE AgentID = ?")
+	stmt, err := db.db.Prepare("UPDATE TS_Agents SET Active = ?, Reason = ?, AESKey = ?, AESIv = ?, Hostname = ?, Username = ?, DomainName = ?, ExternalIP = ?, InternalIP = ?, ProcessName = ?, BaseAddress = ?, ProcessPID = ?, ProcessTID = ?, ProcessPPID = ?, ProcessArch = ?, Elevated = ?, OSVersion = ?, OSArch = ?, SleepDelay = ?, SleepJitter = ?, KillDate = ?, WorkingHours = ?, FirstCallIn = ?, LastCallIn = ?, ProcessPath = ? WHERE AgentID = ?")
 	if err != nil {
 		return err
 	}
@@ -133,6 +134,7 @@ func (db *DB) AgentUpdate(agent *agent.Agent) error {
 		agent.Info.WorkingHours,
 		agent.Info.FirstCallIn,
 		agent.Info.LastCallIn,
+		agent.Info.ProcessPath,
 		int(AgentID))
 	if err != nil {
 		return err
@@ -213,7 +215,7 @@ func (db *DB) AgentAll() []*agent.Agent {
 
 	var Agents []*agent.Agent
 
-	query, err := db.db.Query("SELECT AgentID, Active, Reason, AESKey, AESIv, Hostname, Username, DomainName, ExternalIP, InternalIP, ProcessName, BaseAddress, ProcessPID, ProcessTID, ProcessPPID, ProcessArch, Elevated, OSVersion, OSArch, SleepDelay, SleepJitter, KillDate, WorkingHours, FirstCallIn, LastCallIn FROM TS_Agents WHERE Active = 1")
+	query, err := db.db.Query("SELECT AgentID, Active, Reason, AESKey, AESIv, Hostname, Username, DomainName, ExternalIP, InternalIP, ProcessName, BaseAddress, ProcessPID, ProcessTID, ProcessPPID, ProcessArch, Elevated, OSVersion, OSArch, SleepDelay, SleepJitter, KillDate, WorkingHours, FirstCallIn, LastCallIn, COALESCE(ProcessPath, '') FROM TS_Agents WHERE Active = 1")
 	if err != nil {
 		return nil
 	}
@@ -233,6 +235,7 @@ func (db *DB) AgentAll() []*agent.Agent {
 			ExternalIP string
 			InternalIP string
 			ProcessName string
+			ProcessPath string
 			BaseAddress int64
 			ProcessPID int
 			ProcessTID int
@@ -250,7 +253,7 @@ func (db *DB) AgentAll() []*agent.Agent {
 		)
 
 		/* read the selected items */
-		err = query.Scan(&AgentID, &Active, &Reason, &AESKey, &AESIv, &Hostname, &Username, &DomainName, &ExternalIP, &InternalIP, &ProcessName, &BaseAddress, &ProcessPID, &ProcessTID, &ProcessPPID, &ProcessArch, &Elevated, &OSVersion, &OSArch, &SleepDelay, &SleepJitter, &KillDate, &WorkingHours, &FirstCallIn, &LastCallIn)
+		err = query.Scan(&AgentID, &Active, &Reason, &AESKey, &AESIv, &Hostname, &Username, &DomainName, &ExternalIP, &InternalIP, &ProcessName, &BaseAddress, &ProcessPID, &ProcessTID, &ProcessPPID, &ProcessArch, &Elevated, &OSVersion, &OSArch, &SleepDelay, &SleepJitter, &KillDate, &WorkingHours, &FirstCallIn, &LastCallIn, &ProcessPath)
 		if err != nil {
 			/* at this point we failed
 			 * just return the collected agents */
@@ -288,6 +291,7 @@ func (db *DB) AgentAll() []*agent.Agent {
 		Agent.Info.ExternalIP   = ExternalIP
 		Agent.Info.InternalIP   = InternalIP
 		Agent.Info.ProcessName  = ProcessName
+		Agent.Info.ProcessPath  = ProcessPath
 		Agent.Info.BaseAddress  = BaseAddress
 		Agent.Info.ProcessPID   = ProcessPID
 		Agent.Info.ProcessTID   = ProcessTID
